@@ -1239,6 +1239,14 @@ func init() {
 		}
 	}
 
+
+	// jsoniter: Config.Froze registers float / HTML / number / raw-message *encoder* extensions keyed by
+	// reflect2 types (unsafe type-table walking).  The pdata decoders only use the Iterator, which is
+	// plain code: the four registration helpers get empty bodies, everything else of jsoniter is interpreted.
+	for _, nm := range []string{"marshalFloatWith6Digits", "escapeHTML", "useNumber", "validateJsonRawMessage"} {
+		S["(*github.com/json-iterator/go.frozenConfig)."+nm] = nop
+	}
+
 	// proto.Clone is reflection-driven; the messages cloned here (rpc Status) are plain data: structural deep copy
 	S["google.golang.org/protobuf/proto.Clone"] = func(w *Worker, fr *frame, fn *ssa.Function, args []value) value {
 		return deepCopyValue(args[0], map[*value]*value{})
